@@ -128,7 +128,32 @@ def operation_discipline(P, rep, rule="R1"):
             rep.violation(rule, "%s: %s" % (F.qn, why), F.nloc(r), F.qn, norm.render(P, r)[:100],
                           "the model does not honour its declared operation (replace / add / subtract / replace defined only)",
                           key="%s|%s|%s" % (rule, F.qn, why[:30]), witness="two overlapping features, the upper one with operation add")
-        if not bad:
+        if kind == "Composition":
+            # 'replace' clears the compositions the model does not list: after the loop over `compositions`, still inside the
+            # model's range test, `if (operation == REPLACE) return 0.0;`
+            clears = []
+            for r in F.walk():
+                if r.get("k") == "ReturnStmt" and r.get("c") and sc(r["c"][0]).get("k") in ("FloatingLiteral", "IntegerLiteral") and float(sc(r["c"][0]).get("v")) == 0.0:
+                    g = astq.enclosing(F, r, ("IfStmt",))
+                    if g is not None and "REPLACE" in norm.render(P, g["c"][0]) and "==" in norm.render(P, g["c"][0]):
+                        # must follow a loop over the compositions list in the same block
+                        blk = astq.enclosing(F, g, ("CompoundStmt",))
+                        prev_loop = False
+                        for st in blk["c"]:
+                            if st is g:
+                                break
+                            if st.get("k") in ("ForStmt", "CXXForRangeStmt") and "compositions" in norm.render(P, st["c"][1]):
+                                prev_loop = True
+                        if prev_loop:
+                            clears.append(r)
+            if len(clears) != 1:
+                bad.append((F.body, "no `if (operation == REPLACE) return 0.0;` after the loop over the listed compositions (unlisted compositions are not cleared by replace)"))
+                rep.violation(rule, "%s: %s" % (F.qn, bad[-1][1]), F.loc, F.qn, "", "operation replace does not clear the compositions the model does not list",
+                              key="%s|%s|clear" % (rule, F.qn), witness="replace model listing composition 0 over a feature that painted composition 1")
+                bad.pop()
+                bad.append(None)
+        bad = [b for b in bad if b is not None] if any(b is None for b in bad) else bad
+        if not bad and not (kind == "Composition" and len(clears) != 1):
             rep.ok(rule, "%s::%s::%s::%s" % (ftype, kind, name, F.name), F.loc, F.qn)
         # operation parsed from its key
         cls = F.qn.rsplit("::", 1)[0]
